@@ -256,7 +256,13 @@ def run(ctx):
                     ctx.ob('C15-LINKS.presence-test-and-read-use-the-same-mapping', dl, n_.ast, ok,
                            '' if ok else 'the link is read from %s[%s] but whether it exists is decided by `%s`: a link made in this session (present in _vals_, '
                            'absent from _dbvals_) is skipped and the deleted object stays referenced by its partner' % (m2, k2, norm(cmp_)), node=n_.ast)
-    ctx.floor('C15-LINKS', nlinks, 2, 'guarded reads of the deleted object\'s links')
+    # ... and nothing in _delete_ takes a link from the database-side copy
+    dbreads = [n_ for n_ in g.nodes if n_.ast is not None and n_.kind in ('stmt', 'test') and not isinstance(n_.ast, (ast.FunctionDef, ast.For, ast.While, ast.If, ast.Try, ast.With))
+               and any(m2.endswith('_dbvals_') for m2, k2 in reads(n_.ast))]
+    ctx.ob('C15-LINKS.links-are-read-from-the-session-values', dl, dbreads[0].ast if dbreads else dl.node, not dbreads,
+           '' if not dbreads else '_delete_ reads a link from _dbvals_ (the value last seen in the database): links made or changed in this session are missed',
+           node=dbreads[0].ast if dbreads else None)
+    ctx.floor('C15-LINKS', nlinks, 1, 'guarded reads of the deleted object\'s links')
 
 
 MUTANTS = [
